@@ -3,18 +3,23 @@ package main
 import (
 	"fmt"
 	"os"
+	"os/exec"
 	"path/filepath"
 	"runtime"
 	"sort"
 	"strings"
 	"sync"
+	"sync/atomic"
 	"time"
+
+	"github.com/go-git/go-billy/v5"
 
 	"github.com/MichaelMure/git-bug/cache"
 	"github.com/MichaelMure/git-bug/entities/bug"
 	"github.com/MichaelMure/git-bug/entities/identity"
 	"github.com/MichaelMure/git-bug/entity"
 	"github.com/MichaelMure/git-bug/query"
+	"github.com/MichaelMure/git-bug/repository"
 )
 
 func init() { props["C18"] = runC18 }
@@ -55,6 +60,8 @@ func c18Run(c *runCtx, r *rng, ci, workers, procs, cacheSize, steps int) {
 	tag := fmt.Sprintf("workers=%d GOMAXPROCS=%d cacheSize=%d", workers, procs, cacheSize)
 	c.context("concurrent run " + tag)
 	repo, dir := newGoGit("c18", false)
+	stall := &stallFS{LocalStorage: repo.LocalStorage(), hit: make(chan struct{}, 1), release: make(chan struct{}, 1)}
+	repo = &stallRepo{TestedRepo: repo, ls: stall}
 	rc := mustCache(repo)
 	iden, err := rc.Identities().New("worker", "w@example.com")
 	if err != nil {
@@ -75,6 +82,8 @@ func c18Run(c *runCtx, r *rng, ci, workers, procs, cacheSize, steps int) {
 	if err != nil {
 		panic(err)
 	}
+	stall.LocalStorage = repo.LocalStorage()
+	repo = &stallRepo{TestedRepo: repo, ls: stall}
 	rc = mustCache(repo)
 	if cacheSize > 0 {
 		rc.Bugs().SetCacheSize(cacheSize)
@@ -351,6 +360,11 @@ func c18Run(c *runCtx, r *rng, ci, workers, procs, cacheSize, steps int) {
 		acks = kept
 		mu.Unlock()
 	} else {
+		// the cache file at rest: a writer that is slow to reach the disk must not leave an older
+		// listing there than the one in memory (the next process takes the file as it is)
+		if cacheSize == 0 {
+			c18AtRest(c, rc, stall, dir, shared, tag, func(id entity.Id) { mu.Lock(); attempted[id] = true; mu.Unlock() })
+		}
 		// the goroutines are done: what the cache lists for a bug is what the bug says (staged
 		// operations included) …
 		for _, id := range rc.Bugs().AllIds() {
@@ -505,6 +519,126 @@ func c18Run(c *runCtx, r *rng, ci, workers, procs, cacheSize, steps int) {
 		}
 	} else {
 		r2.Close()
+	}
+}
+
+// stallFS delays, once per arming, the creation of the bug cache file: the writer that serialised
+// the listing first reaches the disk last.
+type stallFS struct {
+	repository.LocalStorage
+	armed   atomic.Bool
+	hit     chan struct{}
+	release chan struct{}
+}
+
+func (f *stallFS) Create(name string) (billy.File, error) {
+	if strings.HasSuffix(filepath.ToSlash(name), "cache/bugs") && f.armed.CompareAndSwap(true, false) {
+		select {
+		case f.hit <- struct{}{}:
+		default:
+		}
+		select {
+		case <-f.release:
+		case <-time.After(150 * time.Millisecond):
+		}
+	}
+	return f.LocalStorage.Create(name)
+}
+
+type stallRepo struct {
+	repository.TestedRepo
+	ls *stallFS
+}
+
+func (s *stallRepo) LocalStorage() repository.LocalStorage { return s.ls }
+
+// c18AtRest: goroutine 1 retitles and commits bug A and is held when it creates the cache file;
+// goroutine 2 retitles and commits bug B meanwhile.  Once both returned, a second process (a copy
+// of the repository, opened with the cache file as it is) must list both new titles.
+func c18AtRest(c *runCtx, rc *cache.RepoCache, stall *stallFS, dir string, shared []entity.Id, tag string, attempt func(entity.Id)) {
+	for round := 0; round < 3; round++ {
+		select {
+		case <-stall.release:
+		default:
+		}
+		select {
+		case <-stall.hit:
+		default:
+		}
+		titles := []string{fmt.Sprintf("at rest A %d", round), fmt.Sprintf("at rest B %d", round)}
+		var staged [2]*cache.BugCache
+		retitle := func(i int) {
+			defer func() { recover() }()
+			bc, err := rc.Bugs().Resolve(shared[1+i])
+			if err != nil {
+				return
+			}
+			if op, err := bc.SetTitle(titles[i]); err == nil && op != nil {
+				attempt(op.Id())
+				staged[i] = bc
+			}
+		}
+		commit := func(i int) {
+			defer func() { recover() }()
+			if staged[i] != nil {
+				staged[i].Commit()
+			}
+		}
+		// the last write of goroutine 1 (the one its commit triggers) is the one that is held
+		retitle(0)
+		stall.armed.Store(true)
+		d1, d2 := make(chan struct{}), make(chan struct{})
+		go func() { defer close(d1); commit(0) }()
+		select {
+		case <-stall.hit:
+		case <-d1:
+		case <-time.After(5 * time.Second):
+		}
+		go func() { defer close(d2); retitle(1); commit(1) }()
+		select {
+		case <-d2:
+			select {
+			case stall.release <- struct{}{}:
+			default:
+			}
+		case <-time.After(10 * time.Second):
+		}
+		for _, d := range []chan struct{}{d1, d2} {
+			select {
+			case <-d:
+			case <-time.After(25 * time.Second):
+				c.violation(-1, "C18/deadlock", "a retitle-and-commit did not return ("+tag+")", map[string]any{"conf": tag})
+				return
+			}
+		}
+		stall.armed.Store(false)
+		// a second process: the repository as it is on disk now
+		dir2 := scratch("c18rest")
+		os.RemoveAll(dir2)
+		if out, err := exec.Command("cp", "-a", dir, dir2).CombinedOutput(); err != nil {
+			panic(fmt.Sprintf("cp: %v %s", err, out))
+		}
+		os.Remove(filepath.Join(dir2, ".git", gbNamespace, "lock"))
+		r2, err := openGoGit(dir2)
+		if err != nil {
+			c.violation(-1, "C18/unreadable", "a copy of the repository does not open: "+err.Error(), nil)
+			return
+		}
+		rc2, err := cache.NewRepoCacheNoEvents(r2)
+		if err != nil {
+			c.violation(-1, "C18/unreadable", "the cache of a copy of the repository does not open: "+err.Error(), nil)
+			return
+		}
+		for i := 0; i < 2; i++ {
+			ex, err := rc2.Bugs().ResolveExcerpt(shared[1+i])
+			live, err2 := rc.Bugs().Resolve(shared[1+i])
+			if err == nil && err2 == nil && ex.Title != live.Snapshot().Title {
+				c.violation(-1, "C18/cache-file-stale-at-rest", fmt.Sprintf("after two overlapping edits returned, the cache file on disk lists bug %s as %q while the bug's title is %q: the next process shows the old listing (%s)", shared[1+i].Human(), ex.Title, live.Snapshot().Title, tag), map[string]any{"conf": tag})
+			}
+		}
+		rc2.Close()
+		os.RemoveAll(dir2)
+		c.count("at-rest-rounds")
 	}
 }
 
